@@ -489,7 +489,8 @@ class MetadorGroup(MetadorNode):
             dst_path = dest
         elif isinstance(dest, MetadorGroup):
             self._guard_path(dst_name)
-            dst_path = dest.name + f"/{dst_name}"
+            # (the name of the root group is "/", avoid an empty path segment)
+            dst_path = dest.name.rstrip("/") + f"/{dst_name}"
         else:
             raise ValueError("Copy dest must be path or Group!")
 
